@@ -209,6 +209,33 @@ func TestClone(t *testing.T) {
 			ty = hs.TList(ty) // scalar roots have no history worth the name
 		}
 		v := genValue(rt, ty)
+		v0 := hs.DeepCopy(v)
+		// the value's past: in one case out of three the original is changed before it is cloned (lists that were
+		// longer once keep spare room, which a clone must not share)
+		var pre []Action
+		if rapid.IntRange(0, 2).Draw(rt, "past") == 0 {
+			var mp hs.Value = hs.DeepCopy(v)
+			np := rapid.IntRange(1, 8).Draw(rt, "preSteps")
+			for i := 0; i < np; i++ {
+				a, ok := genAction(rt, mp, ty)
+				if !ok {
+					continue
+				}
+				// emptying is the interesting past: prefer the shrinking operations
+				if a.Op == "push" && rapid.Bool().Draw(rt, "popInstead") {
+					a.Op = "pop"
+				}
+				if applicable, _, _ := applyModel(&mp, a); !applicable {
+					continue
+				}
+				pre = append(pre, a)
+				pk.Class("clone:pre-op:" + opClass(a))
+			}
+			if len(pre) > 0 {
+				pk.Class("clone:value-with-a-past")
+				v = mp
+			}
+		}
 		var mo, mc hs.Value = hs.DeepCopy(v), hs.DeepCopy(v)
 		n := rapid.IntRange(1, 12).Draw(rt, "steps")
 		var acts []Action
@@ -229,7 +256,7 @@ func TestClone(t *testing.T) {
 			acts = append(acts, a)
 			pk.Class("clone:op:" + opClass(a))
 		}
-		cs := CloneCase{T: ty, V: hs.WV{V: v}, Actions: acts}
+		cs := CloneCase{T: ty, V: hs.WV{V: v0}, Actions: acts, Pre: pre}
 		pk.Eval()
 		pk.Class("clone:type:" + ty.K.String())
 		pk.Class(fmt.Sprintf("clone:steps:%d", len(acts)/4*4))
